@@ -57,6 +57,11 @@ Variable E : Type.
 Variable einit : N -> E.
 Variable eupd : N -> N -> N -> E -> E.
 Variable ecarry : N -> E -> E.
+(* what is recorded about array mode: for C02 "the number of distinct coupons has passed the
+   promotion threshold" (ArrCond); for a union gadget nothing (True) *)
+Variable arr_ok : N -> list N -> Prop.
+Hypothesis arr_ok_cons : forall lgk c seen, arr_ok lgk seen -> arr_ok lgk (c :: seen).
+Hypothesis arr_ok_cond : forall lgk seen, ArrCond lgk (distinct seen) -> arr_ok lgk seen.
 
 Local Notation upd := (update_with_coupon einit eupd ecarry).
 
@@ -104,7 +109,7 @@ Inductive Sim (lgk : N) (t : tgt) (seen : list N) : sketch E -> sketch E -> Prop
 | SimSet : forall st, 8 <= lgk -> 5 <= hs_lg st -> hs_lg st <= lgk - 3 -> SetRep (hs_lg st) st seen ->
     8 <= hs_len st -> 4 * hs_len st <= 3 * 2 ^ hs_lg st ->
     Sim lgk t seen (mkSketch lgk (MSet st t)) (mkSketch lgk (MSet st T8))
-| SimArr : forall fed e m m8, same_set fed seen -> Forall valid fed -> ArrCond lgk (distinct seen) ->
+| SimArr : forall fed e m m8, same_set fed seen -> Forall valid fed -> arr_ok lgk seen ->
     RepT lgk fed m e t -> RepT lgk fed m8 e T8 ->
     Sim lgk t seen (mkSketch lgk m) (mkSketch lgk m8).
 
@@ -134,6 +139,7 @@ Proof.
   apply (SimArr lgk t seen (rev cs) (ecarry len (spec_est eupd lgk [] cs (einit lgk))) m m8); try assumption.
   - intros c. rewrite <- in_rev. apply Hss.
   - apply Forall_rev. assumption.
+  - now apply arr_ok_cond.
 Qed.
 
 Lemma sim_step : forall lgk t seen s s8 c, 4 <= lgk <= 21 -> Forall valid (c :: seen) -> Sim lgk t seen s s8 ->
@@ -220,8 +226,7 @@ Proof.
     apply (SimArr lgk t _ (c :: fed) (est_step eupd lgk fed c e) m' m8'); try assumption.
     + now apply same_set_cons.
     + now constructor.
-    + destruct Hcond as [H8 Hor]. pose proof (distinct_cons_ge c seen) as Hge. split; [lia|].
-      destruct Hor as [?|?]; [now left|right; lia].
+    + now apply arr_ok_cons.
 Qed.
 
 Lemma sim_run : forall lgk t cs seen s s8, 4 <= lgk <= 21 -> Forall valid cs -> Forall valid seen ->
@@ -249,6 +254,16 @@ Proof.
 Qed.
 
 End Sketch.
+
+(* the instance used for C02: array mode means the promotion threshold has been passed *)
+Definition AC (lgk : N) (seen : list N) : Prop := ArrCond lgk (distinct seen).
+Lemma AC_cons : forall lgk c seen, AC lgk seen -> AC lgk (c :: seen).
+Proof.
+  intros lgk c seen [H8 Hor]. pose proof (distinct_cons_ge c seen) as Hge. split; [lia|].
+  destruct Hor as [?|?]; [now left|right; lia].
+Qed.
+Lemma AC_cond : forall lgk seen, ArrCond lgk (distinct seen) -> AC lgk seen.
+Proof. intros. assumption. Qed.
 
 (* ================= what a sketch shows (the abstraction) ================= *)
 Definition sk_tag {E} (s : sketch E) : mode_tag :=
@@ -292,7 +307,7 @@ Proof.
   - intros j Hj. rewrite (Hbody j Hj). f_equal. now apply spec_regs_set.
 Qed.
 
-Lemma sim_abs : forall E lgk t seen (s s8 : sketch E), 4 <= lgk <= 21 -> Sim E lgk t seen s s8 -> hll_abs_ok lgk t seen s.
+Lemma sim_abs : forall E lgk t seen (s s8 : sketch E), 4 <= lgk <= 21 -> Sim E AC lgk t seen s s8 -> hll_abs_ok lgk t seen s.
 Proof.
   intros E lgk t seen s s8 Hlgk HS.
   destruct HS as [l ds HL Hlen Hss|st Hk8 Hlg5 Hlgm HR Hlen8 Hload|fed e m m8 Hss Hfed Hcond HR HR8];
@@ -318,10 +333,10 @@ Proof.
       intros j Hj. now rewrite Hr, Hreg.
 Qed.
 
-Lemma sim_est : forall E lgk t seen (s s8 : sketch E), Sim E lgk t seen s s8 ->
+Lemma sim_est : forall E ao lgk t seen (s s8 : sketch E), Sim E ao lgk t seen s s8 ->
   sk_est_inputs s = sk_est_inputs s8 /\ sk_tag s = sk_tag s8 /\ sk_len s = sk_len s8 /\ sk_lgk s = sk_lgk s8.
 Proof.
-  intros E lgk t seen s s8 HS.
+  intros E ao lgk t seen s s8 HS.
   destruct HS as [l ds HL Hlen Hss|st Hk8 Hlg5 Hlgm HR Hlen8 Hload|fed e m m8 Hss Hfed Hcond HR HR8];
     unfold sk_est_inputs, sk_tag, sk_len; cbn [sk_lgk sk_mode]; try (repeat split; reflexivity).
   destruct m8; cbn [RepT] in HR8; try contradiction. destruct HR8 as (_ & _ & Hz8 & He8).
@@ -342,7 +357,7 @@ Local Notation run := (run_stream einit eupd ecarry).
 Theorem hll_refines : forall lgk t cs, 4 <= lgk <= 21 -> Forall valid cs ->
   exists s, run lgk t cs = Ok s /\ hll_abs_ok lgk t cs s.
 Proof.
-  intros lgk t cs Hlgk Hcs. destruct (sim_stream E einit eupd ecarry lgk t cs Hlgk Hcs) as (s & s8 & Hr & _ & HS).
+  intros lgk t cs Hlgk Hcs. destruct (sim_stream E einit eupd ecarry AC AC_cons AC_cond lgk t cs Hlgk Hcs) as (s & s8 & Hr & _ & HS).
   exists s. split; [assumption|]. apply (abs_ok_set E lgk t (rev cs) cs); [intros c; symmetry; apply in_rev|].
   now apply (sim_abs E lgk t (rev cs) s s8).
 Qed.
@@ -382,11 +397,11 @@ Theorem hll_types_same_estimator : forall lgk cs, 4 <= lgk <= 21 -> Forall valid
     sk_tag s4 = sk_tag s8 /\ sk_tag s6 = sk_tag s8 /\ sk_len s4 = sk_len s8 /\ sk_len s6 = sk_len s8.
 Proof.
   intros lgk cs Hlgk Hcs.
-  destruct (sim_stream E einit eupd ecarry lgk T4 cs Hlgk Hcs) as (s4 & s8 & H4 & H8 & HS4).
-  destruct (sim_stream E einit eupd ecarry lgk T6 cs Hlgk Hcs) as (s6 & s8' & H6 & H8' & HS6).
+  destruct (sim_stream E einit eupd ecarry AC AC_cons AC_cond lgk T4 cs Hlgk Hcs) as (s4 & s8 & H4 & H8 & HS4).
+  destruct (sim_stream E einit eupd ecarry AC AC_cons AC_cond lgk T6 cs Hlgk Hcs) as (s6 & s8' & H6 & H8' & HS6).
   assert (s8' = s8) by congruence. subst s8'.
-  destruct (sim_est E lgk T4 _ s4 s8 HS4) as (A4 & B4 & C4 & _).
-  destruct (sim_est E lgk T6 _ s6 s8 HS6) as (A6 & B6 & C6 & _).
+  destruct (sim_est E AC lgk T4 _ s4 s8 HS4) as (A4 & B4 & C4 & _).
+  destruct (sim_est E AC lgk T6 _ s6 s8 HS6) as (A6 & B6 & C6 & _).
   exists s4, s6, s8. repeat split; assumption.
 Qed.
 
@@ -413,11 +428,11 @@ Theorem hll_types_same_estimates : forall lgk cs, 4 <= lgk <= 21 -> Forall valid
                  hll_lower_bound s4 nsd = hll_lower_bound s8 nsd /\ hll_lower_bound s6 nsd = hll_lower_bound s8 nsd).
 Proof.
   intros lgk cs Hlgk Hcs.
-  destruct (sim_stream hip hip_new hip_update hip_carry lgk T4 cs Hlgk Hcs) as (s4 & s8 & H4 & H8 & HS4).
-  destruct (sim_stream hip hip_new hip_update hip_carry lgk T6 cs Hlgk Hcs) as (s6 & s8' & H6 & H8' & HS6).
+  destruct (sim_stream hip hip_new hip_update hip_carry AC AC_cons AC_cond lgk T4 cs Hlgk Hcs) as (s4 & s8 & H4 & H8 & HS4).
+  destruct (sim_stream hip hip_new hip_update hip_carry AC AC_cons AC_cond lgk T6 cs Hlgk Hcs) as (s6 & s8' & H6 & H8' & HS6).
   assert (s8' = s8) by congruence. subst s8'.
-  destruct (sim_est hip lgk T4 _ s4 s8 HS4) as (A4 & B4 & C4 & D4).
-  destruct (sim_est hip lgk T6 _ s6 s8 HS6) as (A6 & B6 & C6 & D6).
+  destruct (sim_est hip AC lgk T4 _ s4 s8 HS4) as (A4 & B4 & C4 & D4).
+  destruct (sim_est hip AC lgk T6 _ s6 s8 HS6) as (A6 & B6 & C6 & D6).
   destruct (est_inputs_queries s4 s8 A4 B4 C4 D4) as (E4 & U4 & L4).
   destruct (est_inputs_queries s6 s8 A6 B6 C6 D6) as (E6 & U6 & L6).
   exists s4, s6, s8. repeat split; try assumption; auto.
